@@ -103,6 +103,7 @@ func genPath(r *rng, maxSteps int) string {
 }
 
 func runC01(c *ctx) {
+	stmtAnchored(c)
 	c.rep.Rule = "paths of 1..5 steps over names, quoted names, *, **, $, $$, variables, parenthesised sub-paths, " +
 		"array/object constructors and call steps, with and without []; documents: exhaustive over a 2-name/2-leaf " +
 		"alphabet (depth <= 2 quick, <= 3 thorough) plus random null-free documents with arrays directly inside arrays; " +
@@ -348,6 +349,7 @@ func genPredProg(r *rng) string {
 }
 
 func runC02(c *ctx) {
+	stmtAnchored(c)
 	c.rep.Rule = "predicates (comparisons, boolean combinations, literal/computed/negative/fractional/out-of-range numbers, " +
 		"number arrays incl. duplicates and arrays taken from the document, strings, objects, missing) on every kind of head, " +
 		"stacked up to 3; exhaustive: array lengths 0..5 x positions -7..7 step 0.5 x {literal, computed, from document} x " +
